@@ -84,6 +84,9 @@ func TestVerifC17Formats(t *testing.T) {
 	defer st.Flush()
 	os.Setenv(verifc17.EnvA, verifc17.EnvAVal)
 	os.Setenv(verifc17.EnvB, verifc17.EnvBVal)
+	os.Setenv(verifc17.EnvC, verifc17.EnvCVal)
+	os.Setenv(verifc17.EnvD, verifc17.EnvDVal)
+	os.Setenv(verifc17.EnvE, verifc17.EnvEVal)
 	os.Unsetenv(verifc17.EnvU)
 	dir := t.TempDir()
 	docsPerType := verifkit.EnvInt("docs", 3)
@@ -203,7 +206,12 @@ func c17OneDoc(t *rapid.T, st *verifkit.Stats, dir string, tp *verifc17.Type) {
 	// the document whose strings were expanded beforehand)
 	exp := verifc17.MapStrings(c.doc, verifc17.ExpandEnv).(map[string]any)
 	le := lj
-	if g.HasEnv {
+	if g.HasHostileEnv {
+		// the value-level reference does not apply: substitution happens in the file's text, where a quote
+		// or a backslash of the value meets the format's own quoting; judged by the textual reference below
+		st.Class("doc:has-hostile-env-reference")
+		le.val = reflect.Value{}
+	} else if g.HasEnv {
 		st.Class("doc:has-env-reference")
 		eb, ok := verifc17.RenderJSON(exp, false)
 		_, oky := verifc17.RenderYAML(exp)
@@ -234,11 +242,20 @@ func c17OneDoc(t *rapid.T, st *verifkit.Stats, dir string, tp *verifc17.Type) {
 		if err := c17Same(lj, lf); err != nil {
 			t.Fatalf("byte loader vs conf.Load(%s) without UseEnv: %v\n%s", f.ext, err, c)
 		}
+		lu := c17LoadFile(tp, name, conf.UseEnv())
 		if le.val.IsValid() {
-			lu := c17LoadFile(tp, name, conf.UseEnv())
 			if err := c17Same(le, lu); err != nil {
 				t.Fatalf("conf.Load(%s, UseEnv()) vs loading the pre-expanded document: %v\n%s", f.ext, err, c)
 			}
+		}
+		// "environment variables expanded … when requested", for every format alike: loading a file with
+		// UseEnv() is loading the file's text after os.ExpandEnv (what conf.UseEnv documents), whatever
+		// characters the values contain
+		byteLoader := map[string]func([]byte, any) error{".json": conf.LoadFromJsonBytes, ".yaml": conf.LoadFromYamlBytes,
+			".yml": conf.LoadFromYamlBytes, ".toml": conf.LoadFromTomlBytes}[strings.ToLower(f.ext)]
+		lt := c17Load(tp, byteLoader, []byte(os.ExpandEnv(string(f.content))))
+		if err := c17Same(lt, lu); err != nil {
+			t.Fatalf("conf.Load(%s, UseEnv()) vs the byte loader on os.ExpandEnv(text): %v\nexpanded text:\n%s\n%s", f.ext, err, os.ExpandEnv(string(f.content)), c)
 		}
 	}
 
